@@ -1,0 +1,42 @@
+//go:build verif
+
+package lite
+
+import (
+	"net"
+
+	"github.com/go-logr/logr"
+	"go.minekube.com/gate/pkg/edition/java/lite/config"
+	"go.minekube.com/gate/pkg/edition/java/netmc"
+	"go.minekube.com/gate/pkg/edition/java/proto/packet"
+)
+
+// Thin re-exports for the C29 check (verification harness only; no logic).
+
+// VerifMatchWithGroups is matchWithGroups.
+func VerifMatchWithGroups(s, pattern string) (bool, []string) { return matchWithGroups(s, pattern) }
+
+// VerifSubstituteBackendParams is substituteBackendParams.
+func VerifSubstituteBackendParams(template string, groups []string) string {
+	return substituteBackendParams(template, groups)
+}
+
+// verifClientC29 is a client of which findRoute only uses Conn().
+type verifClientC29 struct {
+	netmc.MinecraftConn
+	conn net.Conn
+}
+
+func (c verifClientC29) Conn() net.Conn { return c.conn }
+
+// VerifFindRouteC29 calls findRoute for a handshake with the given server address and returns
+// the matched route host, whether an error was returned, whether a backend iterator was
+// returned, and the first backend the iterator yields.
+func VerifFindRouteC29(routes []config.Route, serverAddress string, sm *StrategyManager, conn net.Conn) (routeHost string, route *config.Route, failed bool, hasNext bool, first string, firstOK bool) {
+	_, _, route, routeHost, next, err := findRoute(routes, logr.Discard(), verifClientC29{conn: conn},
+		&packet.Handshake{ServerAddress: serverAddress}, sm)
+	if next != nil {
+		first, _, firstOK = next()
+	}
+	return routeHost, route, err != nil, next != nil, first, firstOK
+}
